@@ -243,7 +243,8 @@ def decode(input, errors="strict", encoding=None, force=True):
 def encode(input, errors="strict", encoding=None):
     consumed = len(input)
     if encoding is None:
-        encoding = detectencoding_unicode(input, True)[0]
+        # an unterminated charset rule gives no encoding, even if final
+        encoding = detectencoding_unicode(input, True)[0] or "utf-8"
         if encoding.replace("_", "-").lower() == "utf-8-sig":
             input = _fixencoding(input, "utf-8", True)
     else:
@@ -408,6 +409,9 @@ class IncrementalEncoder(codecs.IncrementalEncoder):
             else:
                 # Use encoding from the @charset declaration
                 self.encoding = detectencoding_unicode(input, final)[0]
+                if self.encoding is None and final:
+                    # unterminated charset rule
+                    self.encoding = "utf-8"
             if self.encoding is not None:
                 if self.encoding == "css":
                     raise ValueError("css not allowed as encoding name")
